@@ -60,6 +60,9 @@ EXPORT void* spqlios_keep_or_free(void* ptr, void* ptr2);
 // configuration can be exercised on an AVX host. With the guard off nothing changes.
 EXPORT int spqlios_verif_cpu_supports(const char* feature, int detected);
 EXPORT void spqlios_verif_set_cpu_mask(int disable_avx2, int disable_fma, int disable_avx512);
+// number of CPU_SUPPORTS queries so far (every table constructor performs at least one): lets a harness
+// observe whether a call built a table.
+EXPORT uint64_t spqlios_verif_cpu_query_count(void);
 #undef CPU_SUPPORTS
 #ifdef __x86_64__
 #define CPU_SUPPORTS(xxxx) spqlios_verif_cpu_supports((xxxx), __builtin_cpu_supports(xxxx))
